@@ -21,7 +21,7 @@ INTENTS = ['base_type', 'derived_type', 'dup_dimension', 'scaled_unit',
            'alias_unit',
            'term_unit', 'wrong_dim_term', 'derive_unit', 'derive_bad',
            'plain_unit', 'currency_reg', 'currency_new', 'dup_symbol',
-           'empty_symbol', 'wrong_type_scaled', 'evict']
+           'empty_symbol', 'wrong_type_scaled', 'evict', 'term_noise']
 
 
 def variant_of(seed, run):
@@ -49,6 +49,7 @@ def gen(seed, run, tier='quick'):
         'empty_symbol': rng.choice([0, 1]),
         'wrong_type_scaled': rng.choice([0, 1]),
         'evict': rng.choice([0, 1]),
+        'term_noise': rng.choice([0, 1, 2]),
     }
     fault_free = rng.random() < 0.15
     if fault_free:
